@@ -160,6 +160,25 @@ int main() {
                     if (e1.intersects(e2) && !ov.pairs.count({i + 100000, j + 200000})) miss++;
                 }
                 if (miss) fail = "MonotoneChain::computeOverlaps missed " + std::to_string(miss) + " segment pairs with intersecting envelopes";
+                // with an overlap tolerance (snapping / snap-rounding noders): every pair of segments whose distance is within
+                // the tolerance is reported, in both argument orders
+                for (int t = 0; t < 2 && fail.empty(); t++) {
+                    double tol = (t == 0) ? 0.25 + (double)ri(0, 3) * 0.25 : (double)ri(1, 3);
+                    for (int order = 0; order < 2 && fail.empty(); order++) {
+                        Overlaps ovt;
+                        if (order == 0) { for (auto& x : ca) for (auto& y : cb) x.computeOverlaps(&y, tol, &ovt); }
+                        else { for (auto& y : cb) for (auto& x : ca) y.computeOverlaps(&x, tol, &ovt); }
+                        size_t misst = 0;
+                        for (size_t i = 0; i + 1 < da.size(); i++) for (size_t j = 0; j + 1 < db.size(); j++) {
+                            geos::geom::LineSegment s1(da.getAt(i), da.getAt(i + 1)), s2(db.getAt(j), db.getAt(j + 1));
+                            if (s1.distance(s2) <= tol) {
+                                bool seen = order == 0 ? ovt.pairs.count({i + 100000, j + 200000}) > 0 : ovt.pairs.count({j + 200000, i + 100000}) > 0;
+                                if (!seen) misst++;
+                            }
+                        }
+                        if (misst) fail = "MonotoneChain::computeOverlaps(tolerance " + std::to_string(tol) + (order ? ", B vs A" : ", A vs B") + ") missed " + std::to_string(misst) + " segment pairs within the tolerance";
+                    }
+                }
                 stats += " MonotoneChain=" + std::to_string((da.size() - 1) * (db.size() - 1));
             }
         }
